@@ -10,6 +10,7 @@ import (
 
 	"verif.local/sim/kernel"
 	_ "verif.local/sim/props/c02"
+	_ "verif.local/sim/props/c04"
 	_ "verif.local/sim/props/c06"
 	_ "verif.local/sim/props/c10"
 	_ "verif.local/sim/props/c11"
@@ -75,6 +76,7 @@ func TestSim(t *testing.T) {
 			fmt.Printf("INFRA: %v\n", err)
 			os.Exit(2)
 		}
+		fmt.Println("   case:", res.Summary)
 		for _, h := range res.History {
 			fmt.Println("  ", h)
 		}
